@@ -401,6 +401,40 @@ theorem binopF_scalar_frame (op : Op) (how : How) (m : Option Dir) (ch : ColHow)
     intro c' _
     rw [col_value_num' op _ c' a q a.idx m ha]
 
+/-- a frame with ONE column acts as the Series of that column, whatever its name (`_df_column`: `ts.shape[1] == 1`), here
+against a frame with several columns and without a fill method -/
+theorem one_col_left (op : Op) (how : How) (ch : ColHow) (idx : List Int) (n : String) (col : RCol) (b : RFrame) (hb : b.cols.length > 1) :
+    binopF op how Option.none ch (.df { idx := idx, cols := [(n, col)] }) (.df b) =
+      binopF op how Option.none ch (.ts { idx := idx, vals := col }) (.df b) := by
+  obtain ⟨ix, hix⟩ := joinIndex_two how idx b.idx
+  have h1 : indexesOfF [FOperand.df { idx := idx, cols := [(n, col)] }, FOperand.df b] = [idx, b.idx] := rfl
+  have h1' : indexesOfF [FOperand.ts { idx := idx, vals := col }, FOperand.df b] = [idx, b.idx] := rfl
+  simp only [binopF, h1, h1', hix, alignF, kernelF]
+  have h2 : multiNames [FOperand.df (reindexF { idx := idx, cols := [(n, col)] } ix Option.none), FOperand.df (reindexF b ix Option.none)] = [b.names] := by
+    simp [multiNames, reindexF_ncols, hb, reindexF_names]
+  have h2' : multiNames [FOperand.ts (reindexR { idx := idx, vals := col } ix Option.none), FOperand.df (reindexF b ix Option.none)] = [b.names] := by
+    simp [multiNames, reindexF_ncols, hb, reindexF_names]
+  rw [h2, h2', resultCols_one]
+  cases hc : b.names with
+  | nil => exact absurd hc (names_ne_nil b hb)
+  | cons c cs => simp only [colArg_one]; rfl
+
+theorem one_col_right (op : Op) (how : How) (ch : ColHow) (idx : List Int) (n : String) (col : RCol) (a : RFrame) (ha : a.cols.length > 1) :
+    binopF op how Option.none ch (.df a) (.df { idx := idx, cols := [(n, col)] }) =
+      binopF op how Option.none ch (.df a) (.ts { idx := idx, vals := col }) := by
+  obtain ⟨ix, hix⟩ := joinIndex_two how a.idx idx
+  have h1 : indexesOfF [FOperand.df a, FOperand.df { idx := idx, cols := [(n, col)] }] = [a.idx, idx] := rfl
+  have h1' : indexesOfF [FOperand.df a, FOperand.ts { idx := idx, vals := col }] = [a.idx, idx] := rfl
+  simp only [binopF, h1, h1', hix, alignF, kernelF]
+  have h2 : multiNames [FOperand.df (reindexF a ix Option.none), FOperand.df (reindexF { idx := idx, cols := [(n, col)] } ix Option.none)] = [a.names] := by
+    simp [multiNames, reindexF_ncols, ha, reindexF_names]
+  have h2' : multiNames [FOperand.df (reindexF a ix Option.none), FOperand.ts (reindexR { idx := idx, vals := col } ix Option.none)] = [a.names] := by
+    simp [multiNames, reindexF_ncols, ha, reindexF_names]
+  rw [h2, h2', resultCols_one]
+  cases hc : a.names with
+  | nil => exact absurd hc (names_ne_nil a ha)
+  | cons c cs => simp only [colArg_one]; rfl
+
 /-- dividing a frame by the scalar 0 gives a NaN frame of the same shape (never ±inf; F10 for frames) -/
 theorem div_by_zero_scalar_frame (how : How) (m : Option Dir) (ch : ColHow) (a : RFrame) (ha : a.cols.length > 1) :
     binopF .div how m ch (.df a) (.num (some 0)) =
@@ -473,6 +507,79 @@ theorem reduce_div_frames (how : How) (m : Option Dir) (ch : ColHow) (x y : FOpe
     opListF .div how m ch (x :: xs) (y :: ys) =
       some (binopF .div how m ch (xs.foldl (binopF .mul how m ch) x) (ys.foldl (binopF .mul how m ch) y)) := rfl
 
+/-! ### `df_sum / df_mean / df_count` on frames (several columns each) -/
+
+/-- **value and index**: the aggregate of a list of frames lives on the joint index (the union under the default `'oj'`)
+with the joint header `aggCols`, and its cell `(t, c)` is the NaN-skipping aggregate `Agg.at` of the operands' cells
+`(t, c)`, a frame without column `c` or without a value at `t` contributing NaN.  `count_spec`, `sum_skipna` and
+`mean_spec` above say what `Agg.at` is: count of the non-NaN cells, their sum / mean, NaN where no operand has data. -/
+theorem aggF_value (g : Agg) (how : How) (m : Option Dir) (ch : ColHow) (f : RFrame) (fs : List RFrame) :
+    ∃ ix, joinIndex how ((f :: fs).map (·.idx)) = some ix ∧
+      aggregateF g how m ch (f :: fs) =
+        some { idx := ix, cols := (aggCols ch f fs).map fun c =>
+                 (c, ix.map fun t => g.at ((f :: fs).map fun x => cellD Option.none x m c t)) } := by
+  have hix : ∃ ix, joinIndex how ((f :: fs).map (·.idx)) = some ix := by cases how <;> exact ⟨_, rfl⟩
+  obtain ⟨ix, hix⟩ := hix
+  refine ⟨ix, hix, ?_⟩
+  have hix' : joinIndex how (f.idx :: fs.map (·.idx)) = some ix := hix
+  simp only [aggregateF, hix', List.map_cons]
+  congr 2
+  apply List.map_congr_left
+  intro c hc
+  congr 1
+  apply List.ext_getElem
+  · simp
+  · intro k h1 h2
+    simp only [List.getElem_map, List.getElem_range]
+    congr 1
+    have hk : k < ix.length := by simpa using h1
+    have hc' : c ∈ colsJoin ch f.names (fs.map (·.names)) := hc
+    simp only [List.map_map, Function.comp_def, col_recol _ _ ix m c hc', Option.bind_some, List.getElem?_map,
+      List.getElem?_eq_getElem hk, Option.map_some, Option.join_some]
+
+/-- the joint header: the union of the headers under `'oj'` (the default), the common columns under `'ij'`; sorted -/
+theorem aggF_columns_oj (f : RFrame) (fs : List RFrame) (c : String) :
+    c ∈ aggCols .oj f fs ↔ ∃ x ∈ f :: fs, c ∈ x.names := by
+  simp only [aggCols, colsJoin, mem_sortS, mem_foldl_unionS, List.mem_map, List.mem_cons, exists_eq_or_imp]
+  constructor
+  · rintro (h | ⟨_, ⟨x, hx, rfl⟩, h⟩)
+    · exact .inl h
+    · exact .inr ⟨x, hx, h⟩
+  · rintro (h | ⟨x, hx, h⟩)
+    · exact .inl h
+    · exact .inr ⟨_, ⟨x, hx, rfl⟩, h⟩
+
+theorem aggF_columns_ij (f : RFrame) (fs : List RFrame) (c : String) :
+    c ∈ aggCols .ij f fs ↔ ∀ x ∈ f :: fs, c ∈ x.names := by
+  simp only [aggCols, colsJoin, mem_sortS, mem_foldl_interS, List.mem_map, List.mem_cons, forall_eq_or_imp]
+  constructor
+  · rintro ⟨h1, h2⟩
+    exact ⟨h1, fun x hx => h2 _ ⟨x, hx, rfl⟩⟩
+  · rintro ⟨h1, h2⟩
+    refine ⟨h1, ?_⟩
+    rintro _ ⟨x, hx, rfl⟩
+    exact h2 x hx
+
+theorem aggF_columns_sorted (ch : ColHow) (f : RFrame) (fs : List RFrame) : SortedS (aggCols ch f fs) := sorted_sortS _
+
+/-- reading the aggregate by label: cell `(t, c)` = `Agg.at` of the operands' cells -/
+theorem aggF_cell (g : Agg) (how : How) (m : Option Dir) (ch : ColHow) (f : RFrame) (fs : List RFrame) (r : RFrame)
+    (h : aggregateF g how m ch (f :: fs) = some r) (c : String) (t : Int) (hc : c ∈ r.names) (ht : t ∈ r.idx) :
+    cellD Option.none r Option.none c t = g.at ((f :: fs).map fun x => cellD Option.none x m c t) := by
+  obtain ⟨ix, _, h'⟩ := aggF_value g how m ch f fs
+  rw [h'] at h
+  cases h
+  have hc' : c ∈ aggCols ch f fs := by simpa [RFrame.names, List.map_map, Function.comp_def] using hc
+  exact cell_of_built Option.none ix (aggCols ch f fs) (fun c t => g.at ((f :: fs).map fun x => cellD Option.none x m c t)) c t hc' ht
+
+/-- `df_sum` is NaN and `df_count` is 0 exactly where no operand has data in that cell -/
+theorem aggF_no_data (vs : List (Option Rat)) (h : ∀ v ∈ vs, v = Option.none) :
+    Agg.at .sum vs = Option.none ∧ Agg.at .mean vs = Option.none ∧ Agg.at .count vs = some 0 := by
+  have h0 : vs.filterMap id = [] := by
+    rw [List.filterMap_eq_nil_iff]
+    intro v hv; rw [h v hv]; rfl
+  refine ⟨by rw [sum_skipna, if_pos h0], by rw [mean_spec, if_pos h0], by rw [count_spec, h0]; rfl⟩
+
 /-! ### non-vacuity and evaluation checks
 (`Rat` arithmetic does not reduce in the kernel, so concrete results are `#guard` evaluation tests, not theorems) -/
 
@@ -493,5 +600,34 @@ example : SortedL [1, 2, 3] ∧ SortedL [2, 3, 4] ∧ joinIndex .inner [[1, 2, 3
     some [some 1, Option.none, some 3]
 #guard opList .mul .inner Option.none [.ts { idx := [1, 2], vals := [some 2, some 3] }, .num (some 2), .ts { idx := [2], vals := [some 5] }] [] ==
     some (.ts { idx := [2], vals := [some 30] })
+
+/-! frames: the probe of the real code recorded in docs/notes/C08.md -/
+private def fa : RFrame := { idx := [0, 1, 2], cols := [("a", [some 1, some 2, some 3]), ("b", [some 4, Option.none, some 6])] }
+private def fb : RFrame := { idx := [1, 2, 3], cols := [("b", [some 1, some 0, some 2]), ("c", [some 5, some 5, some 5])] }
+private def fx : RFrame := { idx := [1, 2, 3], cols := [("x", [some 1, some 0, some 2]), ("y", [some 5, some 5, some 5])] }
+private def fba : RFrame := { idx := [1, 2, 3], cols := [("b", [some 1, some 0, some 2]), ("a", [some 5, some 5, some 5])] }
+
+/-- the hypotheses of the frame theorems hold on frames with partially overlapping indices and headers -/
+example : fa.cols.length > 1 ∧ fb.cols.length > 1 ∧ SortedL fa.idx ∧ SortedL fb.idx ∧ fa.names.Nodup ∧
+    "a" ∈ fa.names ∧ "a" ∉ fb.names ∧ "c" ∉ fa.names ∧ "c" ∈ fb.names ∧ fb.names ≠ fa.names := by decide
+
+#guard frameCols .ij fa fb == ["b"] && frameCols .oj fa fb == ["a", "b", "c"] && frameCols .ij fa fx == [] &&
+  frameCols .ij fba fba == ["b", "a"] && frameCols .ij fa fba == ["a", "b"]
+#guard binopF .div .inner Option.none .oj (.df fa) (.df fb) ==
+  .df { idx := [1, 2], cols := [("a", [some 2, some 3]), ("b", [Option.none, Option.none]), ("c", [some (1 / 5), some (1 / 5)])] }
+#guard binopF .sub .outer Option.none .oj (.df fa) (.df fb) ==
+  .df { idx := [0, 1, 2, 3], cols := [("a", [some 1, some 2, some 3, Option.none]), ("b", [Option.none, Option.none, some 6, Option.none]),
+                                      ("c", [Option.none, some (-5), some (-5), some (-5)])] }
+#guard binopF .add .inner Option.none .ij (.df fa) (.df fb) == .df { idx := [1, 2], cols := [("b", [Option.none, some 6])] }
+#guard binopF .add .inner Option.none .ij (.df fa) (.df fx) == .ts { idx := [], vals := [] }
+#guard binopF .add .inner Option.none .ij (.df fa) (.ts { idx := [1, 2, 4], vals := [some 10, some 20, some 30] }) ==
+  .df { idx := [1, 2], cols := [("a", [some 12, some 23]), ("b", [Option.none, some 26])] }
+#guard binopF .add .inner Option.none .ij (.df { idx := [1, 2, 3], cols := [("z", [some 1, some 2, some 3])] })
+    (.df { idx := [2, 3, 4], cols := [("w", [some 1, some 2, some 3])] }) == .df { idx := [2, 3], cols := [("0", [some 3, some 5])] }
+#guard (aggregateF .sum .outer Option.none .oj [fa, fb]) ==
+  some { idx := [0, 1, 2, 3], cols := [("a", [some 1, some 2, some 3, Option.none]), ("b", [some 4, some 1, some 6, some 2]),
+                                       ("c", [Option.none, some 5, some 5, some 5])] }
+#guard opListF .add .inner Option.none .oj [.df fa, .df fb, .df fba] [] ==
+  some (.df { idx := [1, 2], cols := [("a", [some 7, some 8]), ("b", [Option.none, some 6]), ("c", [some 5, some 5])] })
 
 end Pyg.Props.C08
